@@ -3,6 +3,6 @@
 id=$1; shift; ID=$(echo $id | tr a-z A-Z)
 P=/verif/seeded/$ID/patch.diff; [ -f $P ] || P=/tmp/seed-$id/SEED/patch.diff
 cd /verif; lib/scratch.sh new s$id >/dev/null && (cd /tmp/vscratch-s$id/repo && git apply $P) || { echo "apply failed"; exit 2; }
-lib/scratch.sh run s$id $ID -tier quick "$@" 2>&1 | grep -v "ld:\|^#\|NOTE:" > /tmp/seedrun-$id.log
-echo "== $ID vs seeded patch: $(grep -c '^VIOLATION' /tmp/seedrun-$id.log) VIOLATION lines"; grep -E "^$ID tier|kind=" /tmp/seedrun-$id.log | sort | uniq -c | sort -rn | head -8
+lib/scratch.sh run s$id $ID -tier quick "$@" 2>&1 | grep -av "ld:\|^#\|NOTE:" > /tmp/seedrun-$id.log
+echo "== $ID vs seeded patch: $(grep -ac "^VIOLATION" /tmp/seedrun-$id.log) VIOLATION lines"; grep -aE "^$ID tier|kind=" /tmp/seedrun-$id.log | sort | uniq -c | sort -rn | head -8
 lib/scratch.sh rm s$id
